@@ -121,6 +121,33 @@ theorem run_setDirtyFlag_true (d : Dev) (hfa : d.failAt = none) (hsz : 0x42 ≤ 
       show (didWrite (d.didSeek off) _).img.getByte q = _
       rw [himg, Img.getByte_write_of_not_mem _ hw _ _ _ (by simp only [List.length_singleton]; omega)]
 
+/-- … and the only byte it may change is the status byte -/
+theorem setDirtyFlag_only_status (d d' : Dev) (hr : run (setDirtyFlag true) d = (.ok (), d')) (hfa : d.failAt = none)
+    (hsz : 0x42 ≤ d.img.size) (hw : d.img.WF) :
+    ∀ q, q ≠ statusOff d.fs → d'.img.getByte q = d.img.getByte q := by
+  unfold setDirtyFlag at hr
+  rw [run_bind_ok (run_getFs d)] at hr
+  simp only [Bool.or_true] at hr
+  by_cases hc : ((true == d.fs.curDirty && d.fs.bpbIoErr == d.fs.curIoErr) = true)
+  · rw [if_pos hc] at hr
+    have : d' = d := (congrArg Prod.snd hr).symm
+    intro q _; rw [this]
+  · rw [if_neg hc] at hr
+    have hoff : (if (d.fs.fatType == FatType.fat32) = true then 65 else 37) = statusOff d.fs := rfl
+    rw [hoff] at hr
+    have hoff42 : statusOff d.fs < 0x42 := by unfold statusOff; split <;> decide
+    rw [run_bind_ok (run_seekStart (statusOff d.fs) d hfa)] at hr
+    have hfa1 : (d.didSeek (statusOff d.fs)).failAt = none := hfa
+    rw [run_bind_ok (run_writeU8_dev _ (d.didSeek (statusOff d.fs)) hfa1
+      (by simp only [didSeek_pos, didSeek_img]; omega)), run_modifyFs] at hr
+    have hd' : d' = _ := (congrArg Prod.snd hr).symm
+    intro q hq
+    rw [hd']
+    show (didWrite (d.didSeek (statusOff d.fs)) _).img.getByte q = _
+    rw [didWrite_img _ _ (by simp only [didSeek_pos, didSeek_img, List.length_singleton]; omega)]
+    show (d.img.write (statusOff d.fs) _).getByte q = _
+    rw [Img.getByte_write_of_not_mem _ hw _ _ _ (by simp only [List.length_singleton]; omega)]
+
 /-! ### frame lemmas -/
 
 section
